@@ -260,3 +260,53 @@ class merge_to_number__uniform:
             for n in range(1, 14 if tier == "quick" else 40):
                 for m in range(1, 16):
                     yield {"desired_chunks": (w,) * n, "max_number": m}
+
+
+# ---------------------------------------------------------------------------
+# C14: "x.rechunk(spec) has the chunks that normalising the spec against x's shape gives" -- the expression's advertised
+# chunks, by record abstraction at rank 1 for an integer (or -1) specification, on the real Rechunk.chunks property.
+# ---------------------------------------------------------------------------
+@contract(f"{RC}::_validate_rechunk", spec="rank1", props=["C14", "C28"])
+class validate_rechunk_r1:
+    """with all sizes known, a rechunk is accepted exactly when old and new layouts describe the same extent"""
+    params = {"old_chunks": "tup:seq", "new_chunks": "tup:seq"}
+    raises = {"ValueError": lambda old_chunks, new_chunks: S.ssum(S.item(old_chunks, 0)) != S.ssum(S.item(new_chunks, 0))}
+
+    def requires(old_chunks, new_chunks):
+        return True
+
+    def ensures(result, old_chunks, new_chunks):
+        return {"same-extent": S.ssum(S.item(old_chunks, 0)) == S.ssum(S.item(new_chunks, 0))}
+
+    def domain(tier, rng):
+        from contracts.slicing import chunkings
+        cs = chunkings(5)
+        for n, a in cs:
+            for m, b in cs:
+                yield {"old_chunks": (a,), "new_chunks": (b,)}
+
+
+from contracts.chunks import uniform_axis, _full_or  # noqa: E402
+
+
+@contract(f"{RC}::Rechunk.chunks", spec="r1-int", props=["C14", "C03"])
+class rechunk_chunks_r1_int:
+    """an integer (or -1) specification: the advertised chunks of the rechunk are the uniform layout of that size over
+    x's extent (blocks of size c, a smaller positive last one; -1 = one block), whatever x's own chunks were"""
+    params = {"self": "obj:Rechunk"}
+    result = "tup:seq"
+    raises = {}  # an accepted specification is never refused
+    fields = {"Rechunk": {"array": "obj:Arr", "_chunks": "tup:int", "block_size_limit": "optint", "balance": "const"},
+              "Arr": {"chunks": "tup:seq", "shape": "tup:int", "ndim": "const", "dtype": "abs:DType"}}
+    consts = {"self.balance": False, "self.array.ndim": 1}
+
+    def requires(self):
+        x = self.get("array")
+        c, s = S.item(self.get("_chunks"), 0), S.item(x.get("shape"), 0)
+        # class invariant of x (its chunks are a chunking of its extent) and an accepted integer specification
+        return S.And(s >= 0, S.chunking(S.item(x.get("chunks"), 0), s), S.Or(c >= 1, c == -1), S.Or(s >= 1, c != -1))
+
+    def ensures(result, self):
+        x = self.get("array")
+        c, s = S.item(self.get("_chunks"), 0), S.item(x.get("shape"), 0)
+        return uniform_axis(S.item(result, 0), s, _full_or(c, s))
